@@ -38,7 +38,7 @@ theorem mpp_loop2_spec (pm : Bytes → Bytes → Bool × Option String) (target 
       · simp only [hlt, decide_false, Bool.false_eq_true, if_false, pure_eq_ok]
       · cases n with
         | zero => simp [Module.cutPrefix, hpre]
-        | succ k => simp [Module.cutPrefix]; omega
+        | succ k => simp [Module.cutPrefix] <;> omega
   | cons c rest ih =>
     intro pre fuel n ht hf
     cases fuel with
@@ -46,13 +46,12 @@ theorem mpp_loop2_spec (pm : Bytes → Bytes → Bool × Option String) (target 
     | succ f =>
       have hf' : rest.length < f := by simp at hf; omega
       have ht' : target = (pre ++ [c]) ++ rest := by simp [ht]
-      have hlt : (pre.length : Int) < len target := by rw [ht, len_eq]; simp
+      have hlt : (pre.length : Int) < len target := by rw [ht, len_eq]; simp; omega
       have hidx : idx target (pre.length : Int) = .ok ((c.toNat : Nat) : Int) := by
         rw [ht]; exact idx_append_length pre c rest
       have hi1 : (pre.length : Int) + 1 = ((pre ++ [c]).length : Int) := by simp
       unfold Generated.Module.MatchPrefixPatterns_loop2
-      simp only [hlt, decide_true, if_true, hidx, bind_ok]
-      rw [byte_eq_int (n := 47) (d := 47) (c := c) rfl]
+      simp only [hlt, decide_true, if_true, hidx, bind_ok, byte_eq_int (n := 47) (d := 47) (c := c) rfl]
       by_cases hc : c = 47
       · subst hc
         cases n with
@@ -93,7 +92,7 @@ def mppK3 (pm : Bytes → Bytes → Bool × Option String) (target : Bytes) (fue
     let n := (count glob ([47] : Bytes))
     let prefix_ := target
     let i_1 := (0 : Int)
-    let (prefix_, n, i_1) ← Generated.Module.MatchPrefixPatterns_loop2 pm target fuel prefix_ n i_1
+    let (prefix_, n, _) ← Generated.Module.MatchPrefixPatterns_loop2 pm target fuel prefix_ n i_1
     if (decide (n > (0 : Int))) then (Generated.Module.MatchPrefixPatterns_loop1 pm target fuel globs) else (do
       let (matched, _) := (pm glob prefix_)
       if matched then (pure (Ctl.ret true)) else (Generated.Module.MatchPrefixPatterns_loop1 pm target fuel globs)))
@@ -133,7 +132,7 @@ theorem mpp_splitOn_not_mem (sep : UInt8) : ∀ (s : Bytes), sep ∉ s → split
   | c :: rest, h => by
     have h1 : c ≠ sep := fun e => h (by simp [e])
     have h2 : sep ∉ rest := fun e => h (by simp [e])
-    obtain ⟨hd, tl, e1, e2⟩ := splitOn_cons_ne sep c rest h1
+    obtain ⟨hd, tl, e1, e2⟩ := Module.splitOn_cons_ne sep c rest h1
     rw [mpp_splitOn_not_mem sep rest h2] at e1
     rw [e2]
     simp at e1
@@ -144,17 +143,19 @@ theorem mpp_splitOn_mem (sep : UInt8) : ∀ (s : Bytes), sep ∈ s →
   | [], h => by simp at h
   | c :: rest, h => by
     by_cases hc : c = sep
-    · subst hc; simp [splitOn_cons_sep]
+    · subst hc; simp [Module.splitOn_cons_sep]
     · have h2 : sep ∈ rest := by
         rcases List.mem_cons.mp h with e | e
         · exact absurd e.symm hc
         · exact e
       have hne : (c != sep) = true := by simp [hc]
-      obtain ⟨hd, tl, e1, e2⟩ := splitOn_cons_ne sep c rest hc
+      obtain ⟨hd, tl, e1, e2⟩ := Module.splitOn_cons_ne sep c rest hc
       rw [mpp_splitOn_mem sep rest h2] at e1
       rw [e2]
       simp at e1
-      simp [hne, e1.1, e1.2]
+      obtain ⟨e3, e4⟩ := e1
+      subst e3 e4
+      simp [hne]
 
 theorem mpp_takeWhile_lt_of_mem {c : UInt8} : ∀ {s : Bytes}, c ∈ s → (s.takeWhile (· != c)).length < s.length
   | [], h => by simp at h
@@ -170,8 +171,12 @@ theorem mpp_takeWhile_lt_of_mem {c : UInt8} : ∀ {s : Bytes}, c ∈ s → (s.ta
 
 /-! ### the outer loop -/
 
+theorem mpp_any_nil (gl : Bytes → Bytes → Bool) (target : Bytes) :
+    (splitOn 44 []).any (fun g => Module.matchOne gl g target) = false := by
+  simp [splitOn, Module.matchOne, Module.trimSuffixB, hasSuffixB, isPrefixOfB]
+
 theorem mpp_loop1_spec (pm : Bytes → Bytes → Bool × Option String) (target : Bytes) :
-    ∀ (fuel : Nat) (globs : Bytes), globs.length + target.length + 2 ≤ fuel →
+    ∀ (fuel : Nat) (globs : Bytes), globs.length + target.length + 1 ≤ fuel →
     Generated.Module.MatchPrefixPatterns_loop1 pm target fuel globs =
       .ok (if (splitOn 44 globs).any (fun g => Module.matchOne (fun p n => (pm p n).1) g target) = true
            then Ctl.ret true else Ctl.next []) := by
@@ -183,7 +188,7 @@ theorem mpp_loop1_spec (pm : Bytes → Bytes → Bool × Option String) (target 
     unfold Generated.Module.MatchPrefixPatterns_loop1
     by_cases hg : globs = []
     · subst hg
-      simp [splitOn, Module.matchOne, Module.trimSuffixB, hasSuffixB, isPrefixOfB]
+      simp [mpp_any_nil]
     have hlen : 0 < globs.length := List.length_pos_iff.mpr hg
     simp only [hg, decide_false, Bool.not_false, if_true]
     change (if decide (index globs [44] ≥ 0) = true then
@@ -200,7 +205,7 @@ theorem mpp_loop1_spec (pm : Bytes → Bytes → Bool × Option String) (target 
         simpa using this
       simp only [hi, decide_true, if_true, take_index_single globs 44 hm, bind_ok, hsf]
       rw [mppK3_spec pm target f _ _ (by omega), mpp_splitOn_mem 44 globs hm, List.any_cons]
-      have hrl : (globs.drop ((globs.takeWhile (· != 44)).length + 1)).length + target.length + 2 ≤ f := by
+      have hrl : (globs.drop ((globs.takeWhile (· != 44)).length + 1)).length + target.length + 1 ≤ f := by
         simp only [List.length_drop]; omega
       rw [ih _ hrl]
       by_cases h1 : Module.matchOne (fun p n => (pm p n).1) (globs.takeWhile (· != 44)) target = true
@@ -209,17 +214,17 @@ theorem mpp_loop1_spec (pm : Bytes → Bytes → Bool × Option String) (target 
     · have hi : ¬ index globs [44] ≥ 0 := fun e => hm ((index_single_nonneg globs 44).mp e)
       simp only [hi, decide_false, Bool.false_eq_true, if_false]
       rw [mppK3_spec pm target f _ _ (by omega), mpp_splitOn_not_mem 44 globs hm, List.any_cons, List.any_nil]
-      rw [ih [] (by simp; omega)]
+      rw [ih [] (by simp; omega), mpp_any_nil]
       by_cases h1 : Module.matchOne (fun p n => (pm p n).1) globs target = true
       · simp [h1]
-      · simp [h1, splitOn, Module.matchOne, Module.trimSuffixB, hasSuffixB, isPrefixOfB]
+      · simp [h1]
 
 /-! ### the function -/
 
 /-- MatchPrefixPatterns, regenerated from module/module.go, is the hand model `Module.matchPrefixPatterns` for every
     `path.Match` stand-in `pm` (only the boolean of its result is used; a malformed-pattern error counts as no match). -/
 theorem MatchPrefixPatterns_spec (pm : Bytes → Bytes → Bool × Option String) (globs target : Bytes) (fuel : Nat)
-    (hf : globs.length + target.length + 2 ≤ fuel) :
+    (hf : globs.length + target.length + 1 ≤ fuel) :
     Generated.Module.MatchPrefixPatterns pm fuel globs target =
       .ok (Module.matchPrefixPatterns (fun p n => (pm p n).1) globs target) := by
   unfold Generated.Module.MatchPrefixPatterns Module.matchPrefixPatterns
@@ -228,7 +233,7 @@ theorem MatchPrefixPatterns_spec (pm : Bytes → Bytes → Bool × Option String
 
 /-- non-vacuity: globs = "x,a/b/", target = "a/b/c" with exact-equality matching -/
 example :
-    Generated.Module.MatchPrefixPatterns (fun p n => (p == n, none)) 14
+    Generated.Module.MatchPrefixPatterns (fun p n => (p == n, none)) 12
         [120, 44, 97, 47, 98, 47] [97, 47, 98, 47, 99] = .ok true ∧
     Module.matchPrefixPatterns (fun p n => ((fun p n => (p == n, (none : Option String))) p n).1)
         [120, 44, 97, 47, 98, 47] [97, 47, 98, 47, 99] = true := by
